@@ -219,6 +219,43 @@ func RuleKPriceMiss(c *core.Ctx) {
 			}
 		})
 		key := "price." + n + ":absent price is an error"
+		// or: no lookup of its own — it delegates to a sibling accessor on the same
+		// receiver and returns that accessor's error
+		if !okLookup {
+			delegated := false
+			core.EachInstr(f, func(ins ssa.Instruction) {
+				call, ok := ins.(*ssa.Call)
+				if !ok || call.Call.StaticCallee() == nil || call.Call.StaticCallee() == f {
+					return
+				}
+				callee := call.Call.StaticCallee()
+				if core.PkgPathOf(callee) != pkgPrice || (callee.Name() != "Price" && callee.Name() != "Valuate") {
+					return
+				}
+				if len(call.Call.Args) == 0 || len(f.Params) == 0 || call.Call.Args[0] != ssa.Value(f.Params[0]) || call.Referrers() == nil {
+					return
+				}
+				for _, r := range *call.Referrers() {
+					ex, ok := r.(*ssa.Extract)
+					if !ok || ex.Index != 1 || ex.Referrers() == nil {
+						continue
+					}
+					returned := false
+					for _, rr := range *ex.Referrers() {
+						if _, ok := rr.(*ssa.Return); ok {
+							returned = true
+						}
+					}
+					if returned && len(core.ErrSuccessBlocks(ex)) > 0 {
+						delegated = true
+					}
+				}
+			})
+			if delegated {
+				c.Ob(rule, key, f.Pos(), core.FuncName(f), core.Discharged, "delegates to a sibling accessor on the same price table and returns its error")
+				continue
+			}
+		}
 		if okLookup && errOnAbsent {
 			c.Ob(rule, key, f.Pos(), core.FuncName(f), core.Discharged, "comma-ok lookup; the absent branch returns a non-nil error")
 		} else {
@@ -294,6 +331,30 @@ func cellOf(fv *ssa.FreeVar) ssa.Value {
 			}
 		})
 		return res
+	}
+	return nil
+}
+
+// stateLoc identifies a piece of state shared by the callbacks of one stage: a
+// variable of the stage constructor captured by its closures (the captured
+// cell), or a field of the object whose methods the callbacks are (the field).
+// nil: the address is neither.
+func stateLoc(addr ssa.Value) any {
+	switch a := addr.(type) {
+	case *ssa.FreeVar:
+		if c := cellOf(a); c != nil {
+			return c
+		}
+	case *ssa.FieldAddr:
+		if prm, ok := a.X.(*ssa.Parameter); ok && prm.Parent().Signature.Recv() != nil && len(prm.Parent().Params) > 0 && prm == prm.Parent().Params[0] {
+			return core.FieldOf(a)
+		}
+		// the object is itself captured: field of *captured
+		if ld, ok := a.X.(*ssa.UnOp); ok {
+			if _, isFree := ld.X.(*ssa.FreeVar); isFree {
+				return core.FieldOf(a)
+			}
+		}
 	}
 	return nil
 }
@@ -400,10 +461,8 @@ func RuleDStateAllPaths(c *core.Ctx) {
 				return
 			}
 			if fa, ok := s.Addr.(*ssa.FieldAddr); ok && core.FieldOf(fa) == normalized {
-				if ld, ok := s.Val.(*ssa.UnOp); ok {
-					if _, isFree := ld.X.(*ssa.FreeVar); isFree {
-						stored = true
-					}
+				if ld, ok := s.Val.(*ssa.UnOp); ok && stateLoc(ld.X) != nil {
+					stored = true
 				}
 			}
 		})
@@ -422,15 +481,15 @@ func RuleDStateAllPaths(c *core.Ctx) {
 	}
 	dayEnd, dayStart := st.callbacks["DayEnd"], st.callbacks["DayStart"]
 	// cells captured by both
-	storesFromNormalized := func(fn *ssa.Function) map[ssa.Value]*ssa.Store {
-		res := map[ssa.Value]*ssa.Store{}
+	storesFromNormalized := func(fn *ssa.Function) map[any]*ssa.Store {
+		res := map[any]*ssa.Store{}
 		core.EachInstr(fn, func(ins ssa.Instruction) {
 			s, ok := ins.(*ssa.Store)
 			if !ok {
 				return
 			}
-			fv, ok := s.Addr.(*ssa.FreeVar)
-			if !ok {
+			loc := stateLoc(s.Addr)
+			if loc == nil {
 				return
 			}
 			fromN := false
@@ -440,7 +499,7 @@ func RuleDStateAllPaths(c *core.Ctx) {
 				}
 			}
 			if fromN {
-				res[cellOf(fv)] = s
+				res[loc] = s
 			}
 		})
 		return res
@@ -451,7 +510,7 @@ func RuleDStateAllPaths(c *core.Ctx) {
 	if len(endStores) != 1 {
 		c.Ob(rule, key, dayEnd.Pos(), core.FuncName(dayEnd), core.Violated, fmt.Sprintf("the valuation stage's DayEnd is expected to keep the day's prices as the next day's previous prices in exactly one captured variable, found %d", len(endStores)))
 	} else {
-		var cell ssa.Value
+		var cell any
 		for k := range endStores {
 			cell = k
 		}
@@ -460,8 +519,7 @@ func RuleDStateAllPaths(c *core.Ctx) {
 			if !ok {
 				return false
 			}
-			fv, ok := s.Addr.(*ssa.FreeVar)
-			return ok && cellOf(fv) == cell
+			return stateLoc(s.Addr) == cell
 		})
 		if esc != "" {
 			c.Ob(rule, key, dayEnd.Pos(), core.FuncName(dayEnd), core.Violated, "the previous prices are not refreshed on every path ("+esc+"): the daily revaluation would use a stale base price")
@@ -485,8 +543,7 @@ func RuleDStateAllPaths(c *core.Ctx) {
 			if !ok || ld.Op != token.MUL {
 				return
 			}
-			fv, ok := ld.X.(*ssa.FreeVar)
-			if !ok || cellOf(fv) != cell {
+			if stateLoc(ld.X) != cell {
 				return
 			}
 			if !core.Dominates(s, ld) {
@@ -516,13 +573,15 @@ func RuleKReval(c *core.Ctx) {
 		return
 	}
 	var dayStart *ssa.Function
-	for _, fn := range core.WithAnon(val) {
-		if len(mapRanges(p, fn)) > 0 {
-			dayStart = fn
+	core.EachInstr(val, func(ins ssa.Instruction) {
+		if ret, ok := ins.(*ssa.Return); ok && len(ret.Results) == 1 && !core.IsNilConst(ret.Results[0]) {
+			if f := processorLiteral(p, ret.Results[0])["DayStart"]; f != nil && len(mapRanges(p, f)) > 0 {
+				dayStart = f
+			}
 		}
-	}
+	})
 	if dayStart == nil {
-		c.Anchor(rule, "the closure of journal.Valuate that ranges over the positions")
+		c.Anchor(rule, "the DayStart callback of journal.Valuate (the one that ranges over the positions)")
 		return
 	}
 	it := mapRanges(p, dayStart)[0]
@@ -634,7 +693,7 @@ func RuleKReval(c *core.Ctx) {
 						if !ok {
 							return
 						}
-						if fv, ok := s.Addr.(*ssa.FreeVar); ok && cellOf(fv) == cur {
+						if stateLoc(s.Addr) == cur {
 							for v := range originSet(p, s.Val, 0) {
 								if fa, ok := v.(*ssa.FieldAddr); ok && core.FieldOf(fa) == normalized {
 									curIsToday = true
@@ -714,7 +773,7 @@ func RuleKReval(c *core.Ctx) {
 
 // priceCell: v is the price result of NormalizedPrices.Price called on a
 // captured price table; returns that table's cell.
-func priceCell(p *core.Prog, v ssa.Value) ssa.Value {
+func priceCell(p *core.Prog, v ssa.Value) any {
 	ex, ok := core.Strip(v).(*ssa.Extract)
 	if !ok {
 		return nil
@@ -727,11 +786,7 @@ func priceCell(p *core.Prog, v ssa.Value) ssa.Value {
 	if !ok {
 		return nil
 	}
-	fv, ok := ld.X.(*ssa.FreeVar)
-	if !ok {
-		return nil
-	}
-	return cellOf(fv)
+	return stateLoc(ld.X)
 }
 
 func revalSkipKind(p *core.Prog, cond ssa.Value, it *iteration) string {
@@ -1182,6 +1237,17 @@ func RuleKPricesOrder(c *core.Ctx) {
 					name := "a dynamic callee"
 					if callee := call.Common().StaticCallee(); callee != nil {
 						name = core.FuncName(callee)
+						// a module function that only reads its slice parameter
+						ro := true
+						for i, a := range call.Common().Args {
+							if a == ssa.Value(x) && !readOnlySliceParam(p, callee, i, 0) {
+								ro = false
+							}
+						}
+						if ro && p.InModule(callee) {
+							c.Ob(rule, fmt.Sprintf("%s:Day.Prices handed to %s", core.FuncName(fn), originName(callee)), r.Pos(), core.FuncName(fn), core.Discharged, "the callee only ranges over, indexes and measures the slice")
+							continue
+						}
 					}
 					key := fmt.Sprintf("%s:Day.Prices handed to %s", core.FuncName(fn), name)
 					c.Ob(rule, key, r.Pos(), core.FuncName(fn), core.Violated, "the day's price slice is handed to "+name+", which can reorder it in place (a sort does): of two prices for one pair on one day the later one must win, before and after printing")
@@ -1190,4 +1256,63 @@ func RuleKPricesOrder(c *core.Ctx) {
 		})
 	}
 	c.Floor(rule, 1)
+}
+
+// readOnlySliceParam: parameter i of fn (a slice) is only ranged over,
+// indexed for reading, measured, or handed to module functions that do the
+// same (depth-limited). Stores through it, appends to it, sorts and external
+// callees make it not read-only.
+func readOnlySliceParam(p *core.Prog, fn *ssa.Function, i int, depth int) bool {
+	if fn == nil || fn.Blocks == nil || !p.InModule(fn) || i >= len(fn.Params) || depth > 3 {
+		return false
+	}
+	var ok func(v ssa.Value) bool
+	seen := map[ssa.Value]bool{}
+	ok = func(v ssa.Value) bool {
+		if seen[v] || v.Referrers() == nil {
+			return true
+		}
+		seen[v] = true
+		for _, r := range *v.Referrers() {
+			switch x := r.(type) {
+			case *ssa.DebugRef, *ssa.Range:
+			case *ssa.Index:
+			case *ssa.IndexAddr:
+				// reading an element is fine, storing through it is not
+				for _, rr := range *x.Referrers() {
+					if st, isStore := rr.(*ssa.Store); isStore && st.Addr == ssa.Value(x) {
+						return false
+					}
+				}
+			case *ssa.Phi:
+				if !ok(x) {
+					return false
+				}
+			case *ssa.Slice:
+				if !ok(x) {
+					return false
+				}
+			case ssa.CallInstruction:
+				if b, isB := x.Common().Value.(*ssa.Builtin); isB {
+					if b.Name() == "len" || b.Name() == "cap" {
+						continue
+					}
+					return false
+				}
+				callee := x.Common().StaticCallee()
+				if callee == nil {
+					return false
+				}
+				for j, a := range x.Common().Args {
+					if a == v && !readOnlySliceParam(p, callee, j, depth+1) {
+						return false
+					}
+				}
+			default:
+				return false
+			}
+		}
+		return true
+	}
+	return ok(fn.Params[i])
 }
